@@ -30,14 +30,19 @@ def drive(F3, alg, N, order=0):
     try:
         g = F3.create(alg_name=alg, N=N)
         sv = g.get_spherical_voronoi()
-        calls = [lambda: g.get_voronoi_adjacency(), lambda: g.get_cell_borders(), lambda: g.get_center_distances(),
-                 lambda: sv.get_voronoi_volumes(), lambda: g.get_voronoi_adjacency(only_upper=False, include_opposing_neighbours=False),
-                 lambda: g.get_center_distances(only_upper=False, include_opposing_neighbours=False)]
+        # the exact areas are also asked for with the other falsy spellings of the flag a caller may hand over
+        falsy = [False, np.False_, 0, np.int64(N) > 10 ** 6][order % 4]
+        named = [("adjacency", lambda: g.get_voronoi_adjacency()), ("border_len", lambda: g.get_cell_borders()),
+                 ("center_distances", lambda: g.get_center_distances()), ("areas", lambda: sv.get_voronoi_volumes()),
+                 ("adjacency", lambda: g.get_voronoi_adjacency(only_upper=False, include_opposing_neighbours=False)),
+                 ("center_distances", lambda: g.get_center_distances(only_upper=False, include_opposing_neighbours=False)),
+                 ("areas", lambda: sv.get_voronoi_volumes(approx=falsy))]
         if order % 2:
-            calls = calls[::-1]
-        if order % 3 == 0:
+            named = named[::-1]
+        approx_first = order % 3 == 0
+        if approx_first:
             # history: the approximate (hull-based) areas are requested first; the exact areas asked for afterwards must still be exact
-            def approx_first():
+            def approx_call():
                 # only a history element: the hull-based estimate is not part of C03's statement (it fails with QhullError for cells
                 # with three vertices and no helper point, N >~ 380); its own outcome is not judged
                 try:
@@ -45,23 +50,19 @@ def drive(F3, alg, N, order=0):
                 except Exception as e:
                     REC.notes[f"approximate areas raised {type(e).__name__} (not judged)"] += 1
                     return None
-            calls.insert(order % 4, approx_first)
+            named.insert(order % 4, (None, approx_call))
         from vlib.rec import call_and_hold
         before = sum(REC.monitors[m]["calls"] + REC.monitors[m]["skipped"] for m in DECIDING)
-        approx_first = len(calls) == 7
-        results = call_and_hold(calls, "C03.returned_object_stable", hostile_caller=(order % 5 == 1))
-        if sum(REC.monitors[m]["calls"] + REC.monitors[m]["skipped"] for m in DECIDING) == before and N >= 4 and not approx_first:
+        results = call_and_hold([f for _, f in named], "C03.returned_object_stable", hostile_caller=(order % 5 == 1))
+        if sum(REC.monitors[m]["calls"] + REC.monitors[m]["skipped"] for m in DECIDING) == before and N >= 4:
             # no RotobjVoronoi behind this grid: the property covers every direction grid with N >= 4, judge from the grid's own points
             REC.notes["C03 judged at the grid level (no RotobjVoronoi behind the grid)"] += 1
             P = np.asarray(g.get_grid_as_array(), dtype=float)
-            names = ["adjacency", "border_len", "center_distances", "areas", "adjacency", "center_distances"]
-            if order % 2:
-                names = names[::-1]
             holder = type("Holder", (), {})()
-            for nm, res in zip(names, results):
+            for (nm, _), res in zip(named, results):
                 if nm == "areas":
                     geom3.judge_areas(P, res)
-                else:
+                elif nm is not None:
                     geom3.judge_points(P, res, nm, holder=holder)
         if N >= 5:
             REC.nontrivial_case((alg, N))
